@@ -27,6 +27,8 @@ var AllKnobs = []string{
 	"extinterfacefields", // an interface field of an entity is owned by another subgraph (@external in the interface's home)
 	"unresolvable",       // reference-only entity stubs are declared @key(resolvable: false)
 	"keyhop",             // an extension subgraph declares only the second key (needs multikeys)
+	"interfacerequires",  // an interface-declared field carries @requires on one implementer (input owned by another subgraph)
+	"interfaceobjects",   // interfaces declare object / list-of-entity fields owned by the interface's home subgraph
 	// universe
 	"nulls", "errors",
 	"duplists", // longer lists of entities that reference the same entity several times (a,a,b,c,b), nulls in the middle
@@ -351,6 +353,9 @@ func GenConfig(r *common.Rand, k Knobs) *Config {
 	// --- abstract types (before object fields so that fields can target them)
 	if k["interfaces"] {
 		nI := r.Pick(3)
+		if nI == 0 && r.Chance(1, 2) {
+			nI = 1
+		}
 		for i := 0; i < nI; i++ {
 			h := r.Pick(g.nSub)
 			var cands []*gType
@@ -690,7 +695,7 @@ func GenConfig(r *common.Rand, k Knobs) *Config {
 			h := a.home
 			for _, tn := range super.PossibleTypes(a.def.Name) {
 				t := g.obj(tn)
-				if t == nil || t.cat != catEntity || len(t.subs) < 2 || !r.Chance(1, 2) {
+				if t == nil || t.cat != catEntity || len(t.subs) < 2 || !r.Chance(2, 3) {
 					continue
 				}
 				// the requiring field: a String interface field this implementer owns in h
